@@ -5,6 +5,7 @@ R11.1  registry read-modify-write-union: the dict loaded from the registry file 
        the registry key is the client's full dotted package name
 R11.2  the "shared core" predicate holds for every layout (core outside the client package at any depth, or embedded in it and re-used later)
        (the predicate's AST is evaluated over symbolic directory layouts of depth 1..4 by a path-algebra interpreter)
+R11.5  a removal of the output package that precedes the exception emitter carries the registry of a contained core over (read before, written back after)
 R11.4  the import header of the regenerated alias file covers every base class the union of codes can need
 R11.3  core emission is additive: the core/exception emitters never delete, and always (re)write what they own
 """
@@ -492,6 +493,7 @@ def run(repo: Repo, rep: Report, tier: str) -> None:
     calls = [c for c in calls_in(emit.node) if dotted(c.func) == "self._is_shared_core"]
     rep.require(len(calls) == 1, f"R11.2: expected one _is_shared_core call in emit, found {len(calls)}")
 
+    rule_cleanup_keeps_registry(repo, rep, "R11.5")
     # ---------------------------------------------------------------- R11.3 additive
     for spec in (f"{EE}:ExceptionsEmitter.emit", f"{EE}:ExceptionsEmitter._update_registry", "emitters.core_emitter:CoreEmitter.emit"):
         fn = repo.func(spec)
@@ -502,3 +504,66 @@ def run(repo: Repo, rep: Report, tier: str) -> None:
             rep.violation("R11.3", sub, f"{fn.fq}|deletes|{norm(dels[0])}", f"`{norm(dels[0])}` removes files from a core other clients use", fn.loc(dels[0]))
         else:
             rep.ok("R11.3", sub, "no delete/rename operation", fn.loc())
+
+
+# ------------------------------------------------------------------------------------------------ R11.5 clean-up keeps the registry
+def rule_cleanup_keeps_registry(repo: Repo, rep, rule: str = "R11.5") -> None:
+    """`generate()` removes the whole output package before a forced regeneration.  A core embedded in that package can be the shared
+    core of other clients (see R11.2), and their status codes are recorded only in its registry file: on every way from the
+    `rmtree` to the exception emitter the registry must have been read before and be written back after the removal."""
+    gen = repo.func("generator.client_generator:ClientGenerator.generate")
+    from sa.cfg import CFG
+    from sa.match import Locals as _L
+
+    cfg = CFG(gen.node)
+    GL = _L(gen.node)
+    REG = ".exception_registry.json"
+
+    def mentions_registry(e: ast.AST) -> bool:
+        return REG in norm(GL.inline(e, stop=tuple(GL.params)))
+
+    def calls_of(n) -> List[ast.Call]:
+        return list(calls_in(n.ast)) if n.kind == "stmt" and n.ast is not None and not n.copy else []
+
+    rm, reads, writes, emits = [], [], [], []
+    for n in cfg.nodes:
+        for c in calls_of(n):
+            d = dotted(c.func) or ""
+            attr = c.func.attr if isinstance(c.func, ast.Attribute) else ""
+            if d == "shutil.rmtree" or attr == "rmtree":
+                rm.append(n)
+            if attr in ("read_bytes", "read_text") and mentions_registry(c.func.value):
+                reads.append(n)
+            if attr in ("write_bytes", "write_text") and mentions_registry(c.func.value):
+                writes.append(n)
+            if d in ("shutil.copy", "shutil.copy2", "shutil.copyfile") and len(c.args) == 2:
+                if mentions_registry(c.args[0]):
+                    reads.append(n)
+                if mentions_registry(c.args[1]):
+                    writes.append(n)
+            if d == "open" and c.args and mentions_registry(c.args[0]):
+                mode = const_str(c.args[1]) if len(c.args) > 1 else "r"
+                (writes if mode and mode[0] in "wa" else reads).append(n)
+            if attr == "emit" and any(k.arg == "client_package_name" for k in c.keywords):
+                emits.append(n)
+    rep.count(f"{rule}:rmtree_sites", len(rm))
+    rep.require(bool(emits), f"{rule}: the ExceptionsEmitter.emit call (client_package_name=...) was not found in generate (anchor)")
+    n_armed = 0
+    for r in rm:
+        after = cfg.reachable(r.id)
+        es = [e for e in emits if e.id in after]
+        if not es:
+            continue  # a removal that is not followed by exception emission (temp-dir clean-up)
+        n_armed += 1
+        sub = f"{gen.module.relpath}:generate `{norm(r.ast)[:50]}` before the exception emitter"
+        saved = [s for s in reads if r.id in cfg.reachable(s.id)]
+        restored = [w for w in writes if w.id in after and any(e.id in cfg.reachable(w.id) for e in es)]
+        if saved and restored:
+            rep.ok(rule, sub, f"the registry is read before the removal (L{saved[0].ast.lineno}) and written back before the emitter runs (L{restored[0].ast.lineno})", gen.loc(r.ast))
+        else:
+            rep.violation(rule, sub, f"{gen.fq}|cleanup-drops-registry|saved={bool(saved)}|restored={bool(restored)}",
+                          "the output package is removed and regenerated without carrying over core/.exception_registry.json: when the package embeds a core "
+                          "that another client re-uses (core_package=\"<this client>.core\"), that client's exception classes disappear from the regenerated "
+                          "exception_aliases.py", gen.loc(r.ast))
+    if not n_armed:
+        rep.ok(rule, f"{gen.module.relpath}:generate clean-up", "no directory removal precedes the exception emitter", gen.loc())
